@@ -24,6 +24,7 @@ type FD struct {
 	Enc bool   `json:"enc"` // encoded at all (exported and not "-")
 	Opt string `json:"opt"` // tag option: "", flat, intern, proto, flattime, ...
 	Tag string `json:"tag"` // raw struct tag when it must be used verbatim (C08); "" = derive from I/Opt
+	JT  string `json:"jt,omitempty"` // raw json tag value when its form matters (C14), e.g. ",omitempty", "-", "x,omitempty"
 	T   *TD    `json:"t"`
 }
 
@@ -79,7 +80,9 @@ func (f *FD) FieldTag() string {
 		t += "," + f.Opt
 	}
 	t += `"`
-	if f.N != f.GN {
+	if f.JT != "" {
+		t += fmt.Sprintf(` json:"%s"`, f.JT)
+	} else if f.N != f.GN {
 		t += fmt.Sprintf(` json:"%s"`, f.N)
 	}
 	return t
